@@ -202,8 +202,10 @@ async fn one_run(ctx: &Ctx, entry: &str, pre: &[Value], ci: usize, tpl: &str, cl
     let p0 = meter::panic_count();
     let base = meter::alloc_begin();
     let t0 = meter::thread_cpu_us();
+    let u0 = meter::thread_user_us();
     let fed = ep.feed(&input).await;
-    let cpu = meter::thread_cpu_us() - t0;
+    // the bound is on user-mode time (never more than the precise total)
+    let cpu = (meter::thread_user_us() - u0).min(meter::thread_cpu_us() - t0);
     let peak = meter::alloc_peak_since(base);
     let o = ep.observe();
     let panics = meter::take_panics();
@@ -266,6 +268,19 @@ pub async fn run_case(ctx: &Ctx, st: &mut State, ci: usize, c: &Value) -> Value 
         }
         match one_run(ctx, entry, &pre, ci, tpl, Some((idx, mutn)), v).await {
             Ok(Some(mut r)) => {
+                if r["res"] == "hang" {
+                    // confirm on two more fresh endpoints; the cheapest run counts
+                    for _ in 0..2 {
+                        if let Ok(Some(again)) = one_run(ctx, entry, &pre, ci, tpl, Some((idx, mutn)), v).await {
+                            if again["res"] != "hang" || again["cpu_us"].as_u64() < r["cpu_us"].as_u64() {
+                                r = again;
+                            }
+                        }
+                        if r["res"] != "hang" {
+                            break;
+                        }
+                    }
+                }
                 if r["res"] == "hang" && mutn.starts_with("dup_fill") {
                     let full = crate::grammar::FILL.load(std::sync::atomic::Ordering::Relaxed);
                     crate::grammar::FILL.store(full / 2, std::sync::atomic::Ordering::Relaxed);
